@@ -93,14 +93,18 @@ Definition cg_run (A : V -> V) (b x : V) (niter : nat) : list cgst :=
   let s := cg_init A b x in
   if cg_rr s =? nzero then [] else otrace (cg_step A) niter s.
 
-(* conjugate_gradient_normal.  [eps2] is np.finfo(float).eps ** 2 = 2^-104: the loop returns once
-   |A^T d|^2 has dropped to eps2 times its initial value (`sqnorm_s_old <= sqnorm_s_stop`). *)
-Record cgnst := { n_x : V; n_d : W; n_p : V; n_s : V; n_ss : T; n_stop : T }.
+(* conjugate_gradient_normal.  [epsm] is np.finfo(float).eps = 2^-52, [eps2] is epsm ** 2.  Two stopping rules
+   besides `sqnorm_q == 0`:
+     * `sqnorm_s_old <= sqnorm_s_stop`  with sqnorm_s_stop = |A^T d_0|^2 * eps2            (fix d9e50f5)
+     * after d = d - a q:  `sqnorm_d_new > sqnorm_d_old * (1 + 100 * epsm)`: undo the step
+       (x.lincomb(1, x, -a, p); d.lincomb(1, d, a, q)) and return                             (fix b290190)
+   [None] = the loop executed `return`; in the second case x has been restored (gen_cgn_guard_exit_x). *)
+Record cgnst := { n_x : V; n_d : W; n_p : V; n_s : V; n_ss : T; n_stop : T; n_dd : T }.
 Definition cgn_init (A : V -> W) (At : W -> V) (eps2 : T) (b : W) (x : V) : cgnst :=
   let d := addW b (scalW (- none_) (A x)) in
   let p := At d in
-  {| n_x := x; n_d := d; n_p := p; n_s := p; n_ss := ipV p p; n_stop := ipV p p * eps2 |}.
-Definition cgn_step (A : V -> W) (At : W -> V) (s : cgnst) : option cgnst :=
+  {| n_x := x; n_d := d; n_p := p; n_s := p; n_ss := ipV p p; n_stop := ipV p p * eps2; n_dd := ipW d d |}.
+Definition cgn_step (A : V -> W) (At : W -> V) (epsm : T) (s : cgnst) : option cgnst :=
   if n_ss s <=? n_stop s then None else
   let q := A (n_p s) in
   let qq := ipW q q in
@@ -108,12 +112,15 @@ Definition cgn_step (A : V -> W) (At : W -> V) (s : cgnst) : option cgnst :=
   let a := n_ss s / qq in
   let x' := addV (n_x s) (scalV a (n_p s)) in
   let d' := addW (n_d s) (scalW (- a) q) in
+  let dd' := ipW d' d' in
+  if n_dd s * (none_ + of_Z 100 * epsm) <? dd' then None else
   let s' := At d' in
   let ss' := ipV s' s' in
   let b := ss' / n_ss s in
-  Some {| n_x := x'; n_d := d'; n_p := addV s' (scalV b (n_p s)); n_s := s'; n_ss := ss'; n_stop := n_stop s |}.
-Definition cgn_run (A : V -> W) (At : W -> V) (eps2 : T) (b : W) (x : V) (niter : nat) : list cgnst :=
-  otrace (cgn_step A At) niter (cgn_init A At eps2 b x).
+  Some {| n_x := x'; n_d := d'; n_p := addV s' (scalV b (n_p s)); n_s := s'; n_ss := ss'; n_stop := n_stop s;
+          n_dd := dd' |}.
+Definition cgn_run (A : V -> W) (At : W -> V) (eps2 epsm : T) (b : W) (x : V) (niter : nat) : list cgnst :=
+  otrace (cgn_step A At epsm) niter (cgn_init A At eps2 b x).
 
 (* ------------------------------------------------------------------ *)
 (* power_method_opnorm, un-normalised form.  The code iterates
